@@ -17,10 +17,29 @@ by_pid = {}
 for f in known:
     if f["status"] == "fixed" and f["rule"] != "probe":
         by_pid.setdefault(f["property"], []).append(f)
+import subprocess
+
+
+def _violations_before(fix_commit: str, pid: str):
+    """Entries with `introduced_by` did not exist on the original commit (they are regressions of an earlier repair):
+    check them on the parent of the commit that fixed them."""
+    files = subprocess.run(["git", "-C", "/repo", "show", "--name-only", "--format=", fix_commit], capture_output=True, text=True).stdout.split()
+    overlay = {}
+    for fpath in files:
+        if fpath.startswith("src/schemathesis/"):
+            overlay[fpath[len("src/schemathesis/"):]] = subprocess.run(["git", "-C", "/repo", "show", f"{fix_commit}^:{fpath}"], capture_output=True, text=True).stdout
+    os.environ["SA_ROOT"] = "/repo"
+    P2 = Project(root="/repo", overlay=overlay)
+    os.environ["SA_ROOT"] = orig
+    chk2 = report.run_rules(pid, REGISTRY[pid]("quick"), P2, "quick", quiet=True)
+    return [o for o in chk2.obligations if o.status == report.VIOLATION]
+
+
 for pid, fs in sorted(by_pid.items()):
     chk = report.run_rules(pid, REGISTRY[pid]("quick"), P, "quick", quiet=True)
-    viol = [o for o in chk.obligations if o.status == report.VIOLATION]
+    viol0 = [o for o in chk.obligations if o.status == report.VIOLATION]
     for f in fs:
+        viol = _violations_before(f["commit"], pid) if f.get("introduced_by") else viol0
         hit = [o for o in viol if o.rule == f["rule"] and (o.function.endswith(f["function"]) or f["function"] in o.function) and o.construct == f["construct"]]
         loose = [o for o in viol if o.rule == f["rule"] and (f["function"] in o.function)]
         status = "ok" if hit else ("KEY-DRIFT" if loose else "NOT-REPORTED")
